@@ -185,6 +185,12 @@ func (m *Machine) ndStub(name string, args []Value) Value {
 		label, _ := args[0].(Str).concrete()
 		m.covers[label] = true
 		return nil
+	case "And":
+		return tt.And(m.term(args[0]), m.term(args[1]))
+	case "Or":
+		return tt.Or(m.term(args[0]), m.term(args[1]))
+	case "Implies":
+		return tt.Or(tt.Not(m.term(args[0])), m.term(args[1]))
 	case "Expect":
 		label, _ := args[0].(Str).concrete()
 		m.expects = append(m.expects, label)
